@@ -282,11 +282,14 @@ func (c *Ctx) finish(runErr error) int {
 	nviol, nund, nknown, nnote, nok := 0, 0, 0, 0, 0
 	distinct := map[string]bool{}
 	var lines []string
-	os.MkdirAll(filepath.Join(verifDir, "evidence", "violations"), 0o755)
-	// remove stale replay files of this property
-	if old, _ := filepath.Glob(filepath.Join(verifDir, "evidence", "violations", c.Prop+"-*.json")); old != nil {
-		for _, f := range old {
-			os.Remove(f)
+	writeFiles := c.overlay == nil // variant sub-runs leave /verif untouched
+	if writeFiles {
+		os.MkdirAll(filepath.Join(verifDir, "evidence", "violations"), 0o755)
+		// remove stale replay files of this property
+		if old, _ := filepath.Glob(filepath.Join(verifDir, "evidence", "violations", c.Prop+"-*.json")); old != nil {
+			for _, f := range old {
+				os.Remove(f)
+			}
 		}
 	}
 	var knownHits []string
@@ -326,8 +329,10 @@ func (c *Ctx) finish(runErr error) int {
 			}
 			k := nviol + nund
 			rp := filepath.Join(verifDir, "evidence", "violations", fmt.Sprintf("%s-%d.json", c.Prop, k))
-			b, _ := json.MarshalIndent(map[string]interface{}{"property": c.Prop, "tier": c.Tier, "obligation": o}, "", " ")
-			os.WriteFile(rp, b, 0o644)
+			if writeFiles {
+				b, _ := json.MarshalIndent(map[string]interface{}{"property": c.Prop, "tier": c.Tier, "obligation": o}, "", " ")
+				os.WriteFile(rp, b, 0o644)
+			}
 			lines = append(lines, fmt.Sprintf("%s:%d: [%s] %s%s", o.File, o.Line, o.Key, tag, o.Detail))
 			if o.Clause != "" {
 				lines = append(lines, "    ("+c.Prop+": "+o.Clause+")")
@@ -337,8 +342,10 @@ func (c *Ctx) finish(runErr error) int {
 	}
 	if runErr != nil {
 		rp := filepath.Join(verifDir, "evidence", "violations", fmt.Sprintf("%s-0.json", c.Prop))
-		b, _ := json.MarshalIndent(map[string]interface{}{"property": c.Prop, "error": runErr.Error()}, "", " ")
-		os.WriteFile(rp, b, 0o644)
+		if writeFiles {
+			b, _ := json.MarshalIndent(map[string]interface{}{"property": c.Prop, "error": runErr.Error()}, "", " ")
+			os.WriteFile(rp, b, 0o644)
+		}
 		lines = append(lines, "ERROR: "+runErr.Error())
 		lines = append(lines, fmt.Sprintf("VIOLATION property=%s replay=%s", c.Prop, rp))
 	}
